@@ -156,6 +156,8 @@ def expand(spec):
                 p["plan"]["burst"] = 1
             # else: a script that does not resume from a checkpoint restarts at level 1 and cannot skip a rung level,
             # so it may run ahead of the poll: several reports per poll, a PAUSE decision in the middle of a batch
+        if rng.random() < 0.4:
+            p["plan"]["progress_inside_poll"] = True  # jobs write reports / exit between the backend's reads within one poll
         if rng.random() < 0.25:
             p["sjwd"] = False  # Tuner asks the backend for the busy workers; jobs make progress between poll and query
         if rng.random() < 0.3:
